@@ -156,6 +156,17 @@ def run(prog: Program, res: Result) -> None:
             n_up += 1
             cmps = [c for c in ast.walk(m.node) if isinstance(c, ast.Compare)]
             what = f"{cinfo.name}.{nm}: fresh iff recorded mtime == current st_mtime"
+            from sa import twins as _tw
+
+            sync_nm = _tw.strip_async_name(nm)
+            if sync_nm != nm and sync_nm in cinfo.methods and _tw.is_default_delegation(m.node, sync_nm):
+                res.ok("C14.R3", f"{m.file}:{m.node.lineno} {cinfo.name}.{nm}", what, f"runs {cinfo.name}.{sync_nm} in an executor with the same arguments")
+                continue
+            # a missing file is stale (the reload then reports it): the only other exit allowed is `return False` in an OSError handler
+            handlers = [h for h in ast.walk(m.node) if isinstance(h, ast.ExceptHandler)]
+            if any(not (norm(h.type) in ("OSError", "FileNotFoundError") and len(h.body) == 1 and isinstance(h.body[0], ast.Return) and isinstance(h.body[0].value, ast.Constant) and h.body[0].value.value is False) for h in handlers):
+                res.fail("C14.R3", file=m.file, line=m.node.lineno, qualname=f"{cinfo.name}.{nm}", construct=f"{nm} swallows an error as fresh", message="the freshness test handles an error by reporting anything other than 'stale': a vanished or unreadable source keeps being served from the cache", what=what)
+                continue
             if len(cmps) == 1 and len(cmps[0].ops) == 1 and isinstance(cmps[0].ops[0], ast.Eq) and "st_mtime" in norm(cmps[0]) and "mtime" in norm(cmps[0].left):
                 res.ok("C14.R3", f"{m.file}:{m.node.lineno} {cinfo.name}.{nm}", what, norm(cmps[0]))
             else:
